@@ -13,6 +13,7 @@ import (
 	"github.com/anoideaopen/foundation/core/balance"
 	fpb "github.com/anoideaopen/foundation/proto"
 	"github.com/golang/protobuf/proto" //nolint:staticcheck
+	"google.golang.org/protobuf/encoding/protojson"
 )
 
 type Interner struct {
@@ -137,4 +138,11 @@ func (w *World) TokenMeta(ch string) *fpb.Token {
 		_ = proto.Unmarshal(data, t)
 	}
 	return t
+}
+
+func jsonpbUnmarshal(data []byte, m *fpb.CCTransfer) error {
+	if len(data) == 0 || data[0] != '{' {
+		return fmt.Errorf("not json")
+	}
+	return protojson.Unmarshal(data, m)
 }
